@@ -308,6 +308,17 @@ def check_seq(prop, tier, seed, replay_path=None, extra_sched=False):
     return rc
 
 
+def found_for(prop, cls):
+    """is a failure of this class a concrete failing execution of the property itself, or a broken
+    correspondence between the traced code and a Lean model? An illegal version-word transition is
+    the former for C17 (the property is about that word) and the latter elsewhere."""
+    if cls == "monitor":
+        return False
+    if cls == "versionword":
+        return prop == "C17"
+    return True
+
+
 def sched_analyse(spec, out, rc, err2, pre, res):
     """all oracles over the output of one scheddrv invocation; appends (class, message, schedule) to res["fails"]"""
     rr = hist.parse(out)
@@ -362,7 +373,7 @@ def sched_run(prop, tier, seed, replay_path=None):
             rc, out, err2 = schedeng.run_workload(binary, rp["workload"], rp.get("runs", 30), rp.get("seed", 0), rp.get("policy", "random"), trace=tr)
         res = sched_analyse(spec, out, rc, err2, pre, {"nruns": 0, "steps": 0, "ops": 0, "fails": [], "acq": 0, "mon": {}})
         for cls, msg, sch in res["fails"]:
-            fails.append({"kind": cls, "detail": msg, "found": cls != "monitor", "workload": rp["workload"], "schedule": sch or rp.get("schedule", []), "pre": rp.get("pre", {})})
+            fails.append({"kind": cls, "detail": msg, "found": found_for(prop, cls), "workload": rp["workload"], "schedule": sch or rp.get("schedule", []), "pre": rp.get("pre", {})})
         return {"sched_evaluations": res["nruns"], "sched_steps": res["steps"]}, fails
     # past failures first: the recorded schedule, then fresh schedules of the same workload
     cdir = os.path.join(vlib.VERIF, "corpus", prop)
@@ -418,8 +429,9 @@ def sched_run(prop, tier, seed, replay_path=None):
     for r in results:
         shapes[r["meta"]["shape"]] = shapes.get(r["meta"]["shape"], 0) + r["nruns"]
         for cls, msg, sch in r["fails"][:1]:
-            fails.append({"kind": cls, "detail": msg, "found": cls != "monitor", "workload": r["text"], "schedule": sch,
+            fails.append({"kind": cls, "detail": msg, "found": found_for(prop, cls), "workload": r["text"], "schedule": sch,
                           "pre": {k.hex(): v for k, v in r["pre"].items()}})
+    fails.sort(key=lambda f: 0 if f.get("found", True) else 1)      # concrete failing executions first
     cov = {
         "sched_evaluations": sum(r["nruns"] for r in results),
         "sched_workloads": len(results),
